@@ -1,6 +1,7 @@
 package e1
 
 import (
+	"os"
 	"encoding/hex"
 	"encoding/json"
 	"fmt"
@@ -344,6 +345,9 @@ func itoa(i int) string { return fmt.Sprint(i) }
 func blockedClientFrames() string {
 	buf := make([]byte, 1<<20)
 	n := runtime.Stack(buf, true)
+	if d := os.Getenv("VERIF_DUMP_STACKS"); d != "" {
+		_ = os.WriteFile(d, buf[:n], 0o600)
+	}
 	var out []string
 	for _, g := range strings.Split(string(buf[:n]), "\n\n") {
 		if !strings.Contains(g, "e1.runAPIConcurrent.func") || strings.Contains(g, "blockedClientFrames") {
